@@ -643,6 +643,10 @@ class PyExec:
                 st.writes.append((cur.buf, getattr(n, "lineno", None)))
                 self.assign(st, n.target, Opaque("in-place update of " + cur.why, buf=cur.buf), env)
                 return [(st, "normal", None, env)]
+            if isinstance(n.op, ast.Add) and isinstance(cur, Ref) and isinstance(st.heap[cur.id], PList):
+                # list += iterable extends the same list object
+                st.heap[cur.id].items.extend(self.iterate(st, r))
+                return [(st, "normal", None, env)]
             self.assign(st, n.target, self.binop(st, n.op, cur, r, n), env)
             return [(st, "normal", None, env)]
         if isinstance(n, ast.Return):
@@ -1164,6 +1168,9 @@ class PyExec:
             for x, y in ((a, b), (b, a)):
                 if isinstance(y, Ref) and isinstance(st.heap[y.id], PList) and not isinstance(x, Ref):
                     return st.new(PList(st.heap[y.id].items * self.cidx(x)))
+        if isinstance(op, ast.Add) and isinstance(a, Ref) and isinstance(b, Ref) \
+                and isinstance(st.heap[a.id], PList) and isinstance(st.heap[b.id], PList):
+            return st.new(PList(list(st.heap[a.id].items) + list(st.heap[b.id].items)))       # python lists concatenate
         if isinstance(a, Ref) or isinstance(b, Ref):
             return self.nd_binop(st, op, a, b, node)
         if isinstance(a, str) and isinstance(op, ast.Mod):
